@@ -445,3 +445,131 @@ def c05(tier, seed):
                 prop["sleepMs"] = 90
             out.append(scenario("c05-%s-%d-%s" % (tn, i, st), prop, fl, tag=tag))
     return out
+
+
+# ---------------------------------------------------------------------------
+# C10: contexts and cleanups of every invocation
+
+CLEANUP_KINDS = {
+    "plain": lambda: [op("ctx", text="in-cleanup")],
+    "panics": lambda: [op("panic", val="string", site=2)],
+    "registers": lambda: [op("cleanup", body=[op("ctx", text="in-cleanup")]), op("ctx", text="in-cleanup")],
+    "errorf": lambda: [op("errorf", text="from cleanup")],
+    "skips": lambda: [op("skip")],
+    "nested": lambda: [op("cleanup", body=[op("cleanup", body=[op("ctx", text="in-cleanup")])])],
+}
+ENDINGS = {
+    "ret": [], "skip": [op("skip")], "fatal": [op("fatalf", site=1)], "panic": [op("panic", val="error", site=1)],
+    "threshold": [iff("x", "ge", 50, [op("fatalf", site=1)])], "nonfatal": [iff("x", "ge", 50, [op("errorf", text="nf")])],
+    "dataskip": [iff("x", "mod2", 0, [op("skip")])],
+}
+
+
+def c10_body(rng):
+    ks = sorted(CLEANUP_KINDS)
+    pick = lambda: CLEANUP_KINDS[rng.choice(ks)]()
+    body = [op("ctx", text="body")]
+    for _ in range(rng.randrange(0, 3)):
+        body.append(op("cleanup", body=pick()))
+    body.append(draw(g("Int16"), "x", "x"))
+    if rng.random() < 0.7:
+        cbody = [op("ctx", text="custom")]
+        for _ in range(rng.randrange(0, 3)):
+            cbody.append(op("cleanup", body=CLEANUP_KINDS[rng.choice(["plain", "registers", "errorf", "nested", "panics"])]()))
+        cbody += [draw(IntRange(0, 5), "a", "a"), iff("a", "le", rng.choice([-1, 1, 2]), [op("skip")])]
+        if rng.random() < 0.3:
+            cbody.append(iff("a", "ge", 5, [op("fatalf", site=3)]))
+        body.append(draw(g("Custom", elem=g("Int8"), body=cbody, fresh=rng.random() < 0.5), "c"))
+    for _ in range(rng.randrange(0, 3)):
+        body.append(op("cleanup", body=pick()))
+    if rng.random() < 0.3:
+        body.append(op("repeat", actions={"a": [op("cleanup", body=[op("ctx", text="in-cleanup")]), draw(g("Bool"), "b")],
+                                          "b": [draw(g("Custom", elem=g("Bool"), body=[op("cleanup", body=[op("ctx", text="in-cleanup")])]), "cb")]}))
+    body.append(op("ctx", text="body"))
+    return body
+
+
+def c10(tier, seed):
+    rng = random.Random(seed)
+    out = []
+    n = 40 if tier == "quick" else 1200
+    ends = sorted(ENDINGS)
+    for i in range(n):
+        e = ends[i % len(ends)]
+        body = c10_body(rng) + ENDINGS[e]
+        fl = {"checks": rng.choice([3, 20, 100]), "seed": rng.randrange(1, 1 << 64), "steps": rng.choice([2, 10]),
+              "nofailfile": rng.choice(["true", "false"]), "shrinktime": rng.choice(["0s", "200ms", "30s"])}
+        out.append(scenario("c10-%s-%d" % (e, i), {"body": body}, fl, tag={"ending": e}))
+    # fail-file replay (runs 1/2) and fuzzing go through the same brackets
+    for i in range(4 if tier == "quick" else 60):
+        body = c10_body(rng) + ENDINGS["threshold"]
+        out.append(scenario("c10-rerun-%d" % i, {"body": body}, {"checks": 100, "seed": rng.randrange(1, 1 << 64)},
+                            runs=[{}, {}], tag={"ending": "threshold", "runs": 2}))
+        fz = ["", "00" * 8, "ff" * 24, "%016x" % rng.randrange(1 << 64) * 6, "01" * 37]
+        out.append(scenario("c10-fuzz-%d" % i, {"body": c10_body(rng) + ENDINGS["nonfatal"]}, {}, runs=[{"fuzz": fz}], entry="fuzz",
+                            tag={"ending": "nonfatal", "entry": "fuzz"}))
+    return out
+
+
+# ---------------------------------------------------------------------------
+# C08: the state-machine discipline
+
+def sm_action(kind, rng):
+    j = rng.randrange(1, 5)
+    if kind == "ok":
+        return [draw(g("Int8"), "v"), op("incvar", var="n")]
+    if kind == "ok2":
+        return [draw(g("Bool"), "w"), draw(g("Byte"), "z"), op("incvar", var="n")]
+    if kind == "skipbefore":
+        return [iff("n", "ge", j, [op("skip")]), draw(g("Bool"), "v"), op("incvar", var="n")]
+    if kind == "skipafter":
+        return [draw(IntRange(0, 9), "r", "r"), iff("r", "ge", rng.randrange(0, 8), [op("skip")]), op("incvar", var="n")]
+    if kind == "alwaysskip":
+        return [op("skip")]
+    if kind == "alwaysskipafter":
+        return [draw(g("Bool"), "v"), op("skip")]
+    if kind == "fatal":
+        return [op("incvar", var="f"), iff("f", "ge", j, [op(rng.choice(["fatalf", "panic", "failnow"]), site=1)]), draw(g("Bool"), "v")]
+    if kind == "nonfatal":
+        return [op("incvar", var="e"), draw(g("Bool"), "v"), iff("e", "ge", j, [op(rng.choice(["errorf", "fail"]), text="nf")])]
+    raise KeyError(kind)
+
+
+def c08(tier, seed):
+    rng = random.Random(seed)
+    out = []
+    kinds = ["ok", "ok2", "skipbefore", "skipafter", "alwaysskip", "alwaysskipafter", "fatal", "nonfatal"]
+    n = 70 if tier == "quick" else 2500
+    for i in range(n):
+        k = rng.randrange(1, 5)
+        if i < 8:
+            chosen = [kinds[i]]
+        elif i < 14:
+            chosen = [["alwaysskip"], ["alwaysskip", "alwaysskip"], ["alwaysskip", "alwaysskipafter"], ["skipbefore"], ["alwaysskipafter"],
+                      ["skipbefore", "alwaysskip"]][i - 8]
+        else:
+            chosen = [rng.choice(kinds) for _ in range(k)]
+        actions = {"act%d_%s" % (j, kd): sm_action(kd, rng) for j, kd in enumerate(chosen)}
+        inv = None
+        r = rng.random()
+        if r < 0.35:
+            inv = [op("incvar", var="i")]
+        elif r < 0.7:
+            jj = rng.randrange(1, 6)
+            inv = [op("incvar", var="i"), iff("i", "ge", jj, [op(rng.choice(["fatalf", "errorf", "panic"]), site=2)])]
+        body = [op("setvar", var=v, val="0") for v in ("n", "f", "e", "i")]
+        rep = {"op": "repeat", "actions": actions}
+        if inv is not None:
+            rep["inv"] = inv
+        body.append(rep)
+        body.append(draw(g("Bool"), "after"))
+        fl = {"checks": rng.choice([5, 30]), "seed": rng.randrange(1, 1 << 64), "steps": rng.choice([1, 5, 30]), "nofailfile": "true",
+              "shrinktime": rng.choice(["0s", "300ms", "30s"])}
+        out.append(scenario("c08-%d-%s" % (i, "+".join(chosen)), {"body": body}, fl, tag={"actions": chosen, "inv": inv is not None}))
+    # arbitrary words through the fuzz entry
+    for i in range(3 if tier == "quick" else 40):
+        actions = {"a": sm_action("ok", rng), "b": sm_action("skipafter", rng), "c": sm_action("skipbefore", rng)}
+        body = [op("setvar", var=v, val="0") for v in ("n", "f", "e", "i")] + [{"op": "repeat", "actions": actions, "inv": [op("incvar", var="i")]}]
+        fz = ["", "00" * 64, "ff" * 64, "%016x" % rng.randrange(1 << 64) * 20, "80" * 100, "7f" * 333]
+        out.append(scenario("c08-fuzz-%d" % i, {"body": body}, {"steps": 5}, runs=[{"fuzz": fz}], entry="fuzz", tag={"entry": "fuzz"}))
+    return out
